@@ -83,6 +83,13 @@ class Leg:
             self.viol(line.split()[0], "fsm-state", "after '%s' and its replies the FSM is in %r, documented %r" % (line, last.get("state"), expect_state))
         return last, upcalls
 
+    def fresh(self):
+        """new trxcon instance *and* a new Python application: what follows does not depend on what came before
+        (a trail starting with "(fresh)" replays from scratch)"""
+        self.s.send("fresh")
+        self.W = AppWorld(trxmodel.std_config())
+        self.trail = ["(fresh)"]
+
     def close(self):
         self.s.close()
 
@@ -134,12 +141,10 @@ def run(ctx):
                     L.trail.pop()
                     if r.get("rc") not in (0, None) and not r.get("sent"):
                         toolong.append((band, n, r.get("rc")))     # trxcon cannot encode this one: outside the statement
-                        L.s.send("fresh")
-                        L.trail = ["(fresh)"]
+                        L.fresh()
                         continue
                     # re-issue through the judged path on a fresh instance (the probe above consumed the command)
-                    L.s.send("fresh")
-                    L.trail = ["(fresh)"]
+                    L.fresh()
                     L.cmd(line, None)
                     enc[band] += 1
                     if n in (1, 2, 64) or n % 16 == 0:
@@ -171,7 +176,7 @@ def replay(ctx, case):
         try:
             for line in case["trail"]:
                 if line == "(fresh)":
-                    L.s.send("fresh")
+                    L.fresh()
                     continue
                 L.trail = []
                 r = L.cmd(line)
